@@ -75,7 +75,23 @@ def run_case(case):
     mon = Mon(trace_len=40)
     aw, dw, gran = case["aw"], case["dw"], case["gran"]
     from vmon.simkit import omit
+    if rng.random() < 0.15:
+        # geometries that cannot be laid out (offsets are given in granularity units: the granularity, also the
+        # documented default of 8, has to divide the data width) are refused at construction, not silently adjusted
+        for kw in ({"addr_width": aw, "data_width": rng.choice([4, 12, 20, 36])},
+                   {"addr_width": aw, "data_width": dw, "granularity": rng.choice([g for g in (3, 5, 7, 9, 48, 128) if dw % g])},
+                   {"addr_width": aw, "data_width": dw, "granularity": 0}, {"addr_width": 0, "data_width": dw},
+                   {"addr_width": aw, "data_width": 0}, {"addr_width": aw, "data_width": dw, "granularity": "8"}):
+            try:
+                csr.Builder(**kw)
+                refused = None
+            except Exception as e:
+                refused = e
+            mon.run(lambda: mon.ok("construction_refused", isinstance(refused, (ValueError, TypeError)),
+                                   f"csr.Builder({kw}) had to be refused with ValueError/TypeError, got {refused!r}"))
     b = csr.Builder(**omit(rng, "csr.Builder", addr_width=aw, data_width=dw, granularity=gran))
+    mon.run(lambda: mon.eq("reported_parameters", (b.addr_width, b.data_width, b.granularity), (aw, dw, gran),
+                           "Builder.addr_width / data_width / granularity (offsets are computed from them by callers)"))
     # a second, independent builder is filled while the first one is in use (also from inside its open scopes):
     # builders must not influence each other
     b2 = csr.Builder(addr_width=max(aw, 6), data_width=dw, granularity=gran)
